@@ -91,6 +91,8 @@ def literal(node, src_lines, names=None, filename=None):
         if isinstance(n, ast.Call):
             fn = n.func
             fname = fn.id if isinstance(fn, ast.Name) else (fn.attr if isinstance(fn, ast.Attribute) else None)
+            if fname == "set" and isinstance(fn, ast.Name) and not n.args and not n.keywords:
+                return set()
             if fname in ("array", "float64", "asarray") and len(n.args) >= 1:
                 for kw in n.keywords:
                     if kw.arg != "dtype":
